@@ -47,6 +47,7 @@ type coop struct {
 	events  chan coopEvent
 	enabled bool
 	parks   []int // yields since the worker's current Add began
+	subs    int   // workers below this index are submitters, the others readers
 }
 
 type coopEvent struct {
@@ -61,6 +62,11 @@ func (c *coop) yield(method string) {
 	en := c.enabled
 	c.mu.Unlock()
 	if !ok || !en {
+		return
+	}
+	if w >= c.subs && method != "reader" {
+		// a reader's own repository calls are not scheduling points: one read (snapshot, GetTip, snapshot) is one step,
+		// taken while every submitter is parked or blocked, so what it sees is the store "at that moment"
 		return
 	}
 	c.mu.Lock()
@@ -78,7 +84,7 @@ func runC15(p *C15Plan) (*stats.Case, error) {
 	}
 	stack.RemoveDB(filepath.Join(c15Dir, "bhs.db"))
 	nw := p.Subs + p.Readers
-	co := &coop{ids: map[int64]int{}, resume: make([]chan struct{}, nw), events: make(chan coopEvent, 64), parks: make([]int, nw)}
+	co := &coop{ids: map[int64]int{}, resume: make([]chan struct{}, nw), events: make(chan coopEvent, 64), parks: make([]int, nw), subs: p.Subs}
 	for i := range co.resume {
 		co.resume[i] = make(chan struct{}, 1)
 	}
@@ -165,6 +171,7 @@ func runC15(p *C15Plan) (*stats.Case, error) {
 		w := p.Subs + r
 		worker(w, func() {
 			for k := 0; k < p.Reads; k++ {
+				co.yield("reader") // the schedule decides at which moment of the submitters' progress this read happens
 				pre, _ := s.Headers()
 				tip := s.Services.Headers.GetTip()
 				if tip == nil {
@@ -385,7 +392,7 @@ func debugStack() []byte {
 }
 
 func genC15(t *rapid.T) *C15Plan {
-	p := &C15Plan{Subs: rapid.IntRange(2, 3).Draw(t, "subs"), Readers: rapid.IntRange(0, 2).Draw(t, "readers"), Reads: rapid.IntRange(1, 4).Draw(t, "reads")}
+	p := &C15Plan{Subs: rapid.IntRange(2, 3).Draw(t, "subs"), Readers: rapid.IntRange(0, 2).Draw(t, "readers"), Reads: rapid.IntRange(1, 8).Draw(t, "reads")}
 	p.Hist = hist.Gen(t, hist.GenOpts{MinSpecs: 2, MaxSpecs: quickThorough(7, 12), NoForbidden: true, NoUnknown: true, NoDuplicates: true, InOrder: true})
 	for range p.Hist.Specs {
 		p.Owner = append(p.Owner, rapid.IntRange(0, p.Subs-1).Draw(t, "owner"))
@@ -440,7 +447,7 @@ func TestC15Enum(t *testing.T) {
 				if count%nsh != shard {
 					continue
 				}
-				p := &C15Plan{Hist: &hist.Plan{Specs: tr.specs}, Owner: tr.owner, Subs: 2, Readers: readers, Reads: 2}
+				p := &C15Plan{Hist: &hist.Plan{Specs: tr.specs}, Owner: tr.owner, Subs: 2, Readers: readers, Reads: 4}
 				for b := 0; b < L; b++ {
 					p.Schedule = append(p.Schedule, (v>>b)&1)
 				}
